@@ -77,6 +77,8 @@ Variants(S, z, lo) ==
   \* explicit zone tree Site -> {Z1, Z2, ...}; a stream of CP 2 is entered as two identical rows (same name, CP 1 each): seed C12d
   \o (IF Twin(S) # {} THEN << [g |-> "tree"] @@ Parallel(S, z, Min(Twin(S))) @@ [lo |-> lo, twin |-> Min(Twin(S))] >>
                        ELSE << [g |-> "tree", S |-> S, z |-> z, lo |-> lo, twin |-> 0] >>)
+  \* the explicit flat zone tree with its children listed in the reverse order ("zones listed in another order", user tree)
+  \o << [g |-> "treerev", S |-> S, z |-> z, lo |-> lo] >>
   \* explicit zone tree with a site inside the site:  Site -> { North (a site) -> {Z1}, Z2, ... }  (seed C02d)
   \o << [g |-> "subsite", S |-> S, z |-> z, lo |-> lo] >>
   \* the same site below a root that is not targeted itself:  Town (a community) -> { Site -> {Z1, Z2, ...} }  (seed C13e)
